@@ -198,6 +198,10 @@ class AddrModel(object):
             if name in self.names:
                 return Expect("name-longer-than-255-registered", errs=[errno.EADDRINUSE, errno.EFAULT])
             free = self.free(NAMED) if name not in WKS_STRICT else []
+            if 0 in self.lookup_allowed(name) and len(self.lookup_allowed(name)) > 1:
+                # and its closed listener still has live connections (see below): EADDRINUSE is as good as the others
+                return Expect("name-longer-than-255-of-closed-listener-with-live-connections", ok=free,
+                              errs=[errno.EFAULT, errno.EADDRINUSE] + ([] if free else sorted(NO_ADDRESS_CODES)))
             if free:
                 return Expect("name-longer-than-255", ok=free, errs=[errno.EFAULT])
             return Expect("name-longer-than-255-exhausted", errs=[errno.EFAULT] + sorted(NO_ADDRESS_CODES))
